@@ -79,8 +79,11 @@ func H09s() {
 	vAssert(!panicked, "generation panicked without a source failure")
 	vReach("returned")
 	if p != nil && err == nil {
-		vAssert(vReads() >= minReads, "fewer random words were read than the recipe has choices")
-		vAssert(vTapeLen() == 4*vReads(), "a random word was built from fewer than four fresh source bytes (short read accepted)")
+		// every random word is four fresh source bytes, however many Read calls it
+		// takes to get them (io.ReadFull semantics): the bytes consumed are a whole
+		// number of words, at least one per choice
+		vAssert(vTapeLen() >= 4*minReads, "fewer random words were read than the recipe has choices")
+		vAssert(vTapeLen()%4 == 0, "a random word was built from fewer than four fresh source bytes (short read accepted)")
 		vReach("generated")
 	}
 }
